@@ -616,7 +616,16 @@ def c09(rep, tier, seed, wd):
                 m = list(b)
                 m[pos] = v
                 muts.append({"bytes": m, "mode": "verdict", "src": "message %d, byte %d := %d" % (g["id"], pos, v)})
-    triples = run_pipeline(base + muts, wd, "c09", trace=False, chunk=6000)
+    # a parser is a function of the buffer alone: give a stateful one the chance to show - every now and then the
+    # intact original is parsed right before its corrupted copies (same adapter process and thread)
+    seq = list(base)
+    origin = {g["id"]: g for g in pick}
+    for k, m in enumerate(muts):
+        if k % 150 == 0:
+            gid = int(m["src"].split()[1].rstrip(","))
+            seq.append({"bytes": origin[gid]["bytes"], "mode": "verdict", "src": "message %d, intact (again)" % gid})
+        seq.append(m)
+    triples = run_pipeline(seq, wd, "c09", trace=False, chunk=6000)
     n = 0
     accepted_mutants = 0
     for case, obs, exp, hang in triples:
